@@ -186,9 +186,17 @@ def rule_frame_kv(program, ctx):
             ctx.bad(finding_at(P, rid, d, "LMDB: supersede candidates are not the (same author, same kind, not newer) scan of INDEXES['authorkinds']"))
             continue
         # own id skipped
-        skip = [n for n in ast.walk(loop) if isinstance(n, ast.If) and isinstance(n.test, ast.Compare) and isinstance(n.test.ops[0], ast.Eq) and "saved_id" in ast.unparse(n.test) and any(isinstance(b, ast.Continue) for b in n.body)]
-        own = [s for s in walk_no_nested(fn) if isinstance(s, ast.Assign) and dotted(s.targets[0]) == "saved_id" and ast.unparse(s.value) == "event.id_bytes"]
-        if skip and own:
+        # whatever the branch shape (early `continue`, nested if, conjunct): the deletion is guarded by `<scanned id> != <own id>`
+        from ..lib import guard_atoms
+        own = [s for s in walk_no_nested(fn) if isinstance(s, ast.Assign) and isinstance(s.targets[0], ast.Name) and ast.unparse(s.value) == "event.id_bytes"]
+        own_names = {s.targets[0].id for s in own} | {"event.id_bytes"}
+        lv = loop.target.id if isinstance(loop.target, ast.Name) else None
+        skip = []
+        for e, pol in guard_atoms(d, stop=loop):
+            if isinstance(e, ast.Compare) and len(e.ops) == 1 and {dotted(e.left), dotted(e.comparators[0])} & own_names and lv in (dotted(e.left), dotted(e.comparators[0])):
+                if (isinstance(e.ops[0], ast.NotEq) and pol) or (isinstance(e.ops[0], ast.Eq) and not pol):
+                    skip.append(e)
+        if skip and (own or "event.id_bytes" in ast.unparse(skip[0])):
             ctx.ok(rid, skip[0], "the new event's own record is skipped")
         else:
             ctx.bad(finding_at(P, rid, loop, "the scan (until = own created_at) includes the new event itself and it is not skipped: the event just written is deleted again", text="own id"))
